@@ -31,7 +31,7 @@ def build(spec: tuple, leaves: tuple) -> dict:
     for k, v in spec:
         if v[0] == "L":
             leaf = leaves[v[1]]
-            d[k] = list(leaf) if isinstance(leaf, list) else leaf
+            d[k] = list(leaf) if isinstance(leaf, list) else leaf  # (lists are rebuilt so that every dictionary owns its values)
         else:
             d[k] = build(v[1], leaves)
     return d
@@ -74,8 +74,10 @@ UNIVERSES = {
     "abc-d1": (("a", "b", "a.b"), (1, None, [1], "s"), 1),
     "ab-d3": (("a", "b"), (1,), 3),
     "a-d4": (("a",), (1, None), 4),
+    "falsy-d2": (("a", "b"), (0, ""), 2),
+    "emptylist-d2": (("a", "b"), ([], False), 2),
 }
-QUICK = ["ab-d2", "dotted-d2", "lists-d2", "abc-d1", "a-d4"]
+QUICK = ["ab-d2", "dotted-d2", "lists-d2", "abc-d1", "a-d4", "falsy-d2", "emptylist-d2"]
 THOROUGH = QUICK + ["ab-d3"]
 
 
